@@ -11,6 +11,8 @@ claimed={
      note=BASE+"net/url.Parse, path.Split, strings.Split/Trim/ToUpper are uninterpreted functional contracts (their own fidelity is not checked); the lock discipline is a sequential typestate argument standing in for the concurrent register/unregister/dial quantifier."),
  "C20": dict(text="For every float64 latitude/longitude in range the values handed to the DD-MM.MMMMH formatter are proved (QF_FP, exact IEEE semantics) to have integral degrees in range, minutes in [0, 59.99995] (prints below 60.0000), the exact float evaluation of (|x|-trunc|x|)*60 with carry (accuracy), the right format string and hemisphere byte; NewCourse yields three ASCII digits (360 -> 000) and errors out of range; Course.String appends M/T; PosReport.Message writes each optional line iff its field is set and builds a valid message.", ref="6.20",
      note=BASE+"fmt's rendering of %07.4f/%02.0f/%03d is assumed as documented (a double <= 59.99995 prints below 60.0000); fbb.NewMessage/SetBody/SetSubject/AddTo are trusted contracts here. Known finding: hemisphere byte is a space for exactly 0.0 (pinned by an existing test)."),
+ "C16": dict(text="secureLoginResponse is verified in exact bit-vector semantics for every challenge, password and MD5 digest: the digested payload is challenge++password++salt (lengths and bytes), the formatted integer is (d3&0x3f)<<24|d2<<16|d1<<8|d0 in [0,2^30), the result is the last 8 characters of the %08d rendering. sendHandshake's wire events are pinned call by call: no write before the missing-handler error, bare first address, 'addr|response' only for auxiliary addresses with a non-empty password, ;PR with the response for the first address iff challenged, callback error aborts, and every formatted argument is pinned so the password cannot be an argument.", ref="6.16",
+     note=BASE+"MD5 is an uninterpreted function; fmt's %08d rendering (>= 8 characters) is an assumed fact; slr(challenge,password) is a definitional link (trusted) between secureLoginResponse and its callers; the password callback may change only foreign state."),
 }
 import sys
 checks=[]
